@@ -1444,6 +1444,14 @@ void World::foreign_write_v1(const Step& s, int64_t id, int ti)
             return;
         }
     }
+    if (td.key != 0)
+    {
+        // Engine keeps the key twice (blob and integer metadata); a writer that stores one stores the other
+        HDb m;
+        if (!(m.open(db_path(*this, false), false) &&
+              m.run("UPDATE MetaDataInteger SET value = ? WHERE id = ? AND type = 4", {HDb::Bind::Int(td.key), HDb::Bind::Int(id)})))
+            note("f_write1: key metadata not updated: " + m.err);
+    }
     foreign_tracks.insert(id);
     probes.hit("foreign_write");
     probes.hit("foreign_write_v1");
@@ -1701,6 +1709,12 @@ bool World::exec_foreign_op(const Step& s)
             return true;
         foreign_write_v1(s, id, ti);
         finish(s.op);
+        // the library's view changed behind its back: differential checks (C06) restart from here
+        if (check(CK_DIFF))
+        {
+            prev = observe();
+            have_prev = true;
+        }
         return true;
     }
     if (s.op == "f_corrupt")
